@@ -15,14 +15,15 @@ def main(ctx: Ctx):
         'delivery latency of PyThreadState_SetAsyncExc and C code that never returns to the interpreter are outside the model (C04 covers unresponsive children)',
         'line-level landing points; opcode-level only through the target-internal pseudo event',
     ]
-    ctx.cov['rule'] = ('real terminate() arriving at every line event after start-up of the six generated run-loop programs (thread kinds additionally: exception raised by the hook at the line), '
+    ctx.cov['rule'] = ('real terminate() arriving at every line event after start-up of the six generated run-loop programs (thread kinds additionally: exception raised by the hook at the line; '
+                       'process/remote kinds additionally: deferred delivery - the control thread receives the request at event k and raises d line events later or when joined, (k, d) sampled), '
                        'targets {returns, raises Exception, raises KeyboardInterrupt}; plus a target with try/finally interrupted inside the try (marker file); '
                        'non-trivial = a landing point; distinct by (program, target, k, mode)')
     meta = landing.regenerate(ctx)
     ctx.lean()
     T = ctx.thorough
-    per = None if T else {'thread': 10 ** 6, 'process': 7, 'remote': 6}
-    cases, und = landing.plan(ctx, meta, list(inject.KINDS), ['r', 'u', 'b'], ['raise', 'terminate'], per_prog=per)
+    per = {'defer': 40} if T else {'thread': 10 ** 6, 'process': 7, 'remote': 6, 'defer': 6}
+    cases, und = landing.plan(ctx, meta, list(inject.KINDS), ['r', 'u', 'b'], ['raise', 'terminate', 'defer'], per_prog=per)
     # always include the landing point inside the target for every program
     for prog in inject.KINDS:
         for t in ('r',):
@@ -50,9 +51,9 @@ def main(ctx: Ctx):
         got = (o.get('has_error'), str(o.get('error')).split(':')[0])
         line = landing.landing_line(rec)
         mine = own.get((rec['prog'], rec['target']), OWN[rec['target']])
-        in_target = line == 0
+        in_target = line == 0 and 'deferred-raise-never-arrived' not in r['notes']
         d = landing.describe(rec)
-        if rec['mode'] == 'terminate' and r.get('term_ret') is not True:
+        if (rec['mode'] == 'terminate' or rec['mode'].startswith('defer')) and r.get('term_ret') is not True:
             c.fail(f'terminate-returned-{str(r.get("term_ret")).split(":")[0]}:{kind}', f'{rec["prog"]}: terminate(3) returned {r.get("term_ret")} (landing at line {line})', d)
         if not r.get('dead'):
             c.fail(f'not-dead:{kind}', f'{rec["prog"]}: worker still alive after terminate (landing at line {line})', d)
